@@ -394,8 +394,8 @@ PROPS['C18'] = {
     'rule': ("one const item per (function family, N, L, element type): chunks_from_slice + slice_from_chunks and their _mut forms for N in {0,1,2,3,7,8,16,17,33,64,100,1024} and every L in 0..=3N+2 (boundary lattice for N > 17 in the quick tier and N >= 100), "
              "from_slice/try_from_slice/from_mut_slice/try_from_mut_slice for L in {0,1,N-1,N,N+1,2N,3N+2}, len/from_array/into_array/as_slice/as_mut_slice/uninit+writes+assume_init per N, from_chunks/into_chunks(_mut) for 0..=3 chunks, element types u8, u32, (u8,u16), (); "
              "const_transmute, builder/consumer const constructors (internals), const_default, arr! list (with and without trailing comma) and both repeat forms. Each item asserts natively computed expectations (lengths, pointer offsets, element values, where writes land) "
-             "and returns a digest; any E0080 is a violation attributed to its item. The built binary calls the same functions at run time through black-boxed function pointers and compares with the const-evaluated digests. 12 must-fail items "
-             "(wrong-length from_slice/from_mut_slice, zero-length chunking of a non-empty slice, size-mismatched const_transmute) must each be an E0080. Non-trivial = N > 0."),
+             "and returns a digest; any E0080 is a violation attributed to its item. The built binary calls the same functions at run time through black-boxed function pointers and compares with the const-evaluated digests. 14 must-fail items "
+             "(wrong-length from_slice/from_mut_slice, zero-length chunking of a non-empty slice, const_transmute with a smaller or a larger source) must each be an E0080. Non-trivial = N > 0."),
     'exhaustive': True,
     'exhaustive_scope': 'the listed finite product',
     'assumptions': COMMON_ASSUME + ["rustc's const evaluator (Miri engine) is the UB oracle at compile time", "const fns found by grepping the crate's sources that have no template are listed in the evidence (const_fns_without_template)"],
